@@ -751,7 +751,7 @@ func genC25(rt *rapid.T, steer c25Steer) (c c25Case, excluded int) {
 const c25Rule = "stack = driver -> address translator -> 0-2 TLBs (sets 1-4, ways 1-3, MSHR 1-4, latency 1-5, 1-4 req/cycle) -> optional mmuCache (1-5 levels, 1-4 blocks) -> MMU (latency 0-8, 1-8 walks) or GMMU -> MMU for remote pages; " +
 	"built with the repository's builders/port/connection idioms, all 1 GHz, port buffers 1-8; page 4K/16K/64K; 1-14 pages of 1-4 processes over a shared pool of 1-8 VPNs (low, 2^20+k, top of the address space) with distinct frames; " +
 	"ideal memory (latency 0-5) pre-filled so each aligned 8-byte word holds a bijective mix of its own physical address; script of 3-70 ops: reads (1-64 B, any offset inside the page), writes (1-16 B inside a 16-byte chunk written at most once, optional dirty mask), " +
-	"TranslationReqs injected at any level's Top, page-table Updates to never-used frames, invalidation rounds over all caches (Drain top-down or quiesce+Pause, then Invalidate(all | pid | addresses) then Enable), fences; gaps 0-25 cycles. " +
+	"TranslationReqs injected at any level's Top, page-table Updates to never-used frames, invalidation rounds over all caches (Drain top-down with traffic in flight, or Pause of an idle (quiesced) stack, or Pause of a busy stack; then Invalidate(all | pid | addresses incl. non-covering filters), then Enable), remap scenarios (warm, Update, requests in flight, covering round 0-8 cycles later, more requests), fences; gaps 0-25 cycles. " +
 	"Oracle per request: the observed page/physical location must be a page-table version that existed by the answer and was either still current after the request was received or (path with a TLB) not yet covered by an acknowledged invalidation round started after the update; " +
 	"every level answers each request exactly once, Dst=requester, RspTo=request ID (port hooks); final memory = pattern + each acknowledged write at one allowed location; the event queue empties with nothing outstanding. " +
 	"Non-trivial: TLB hit, miss, MSHR hit and eviction of a valid entry all occurred in the run (read from TLB State at fill time and port counts)"
@@ -769,8 +769,8 @@ func TestC25Stack(t *testing.T) {
 	s := kit.Begin(t, "C25", "stack", c25Rule)
 	defer s.End()
 	s.Assume("direct TranslationReqs carry page-aligned VAddr (what the address translator sends; the TLB keys its MSHR by the raw VAddr) and only mapped pages are requested (the MMU panics on an unmapped page without auto-allocation)")
-	s.Assume("requests in flight between a page-table Update and the last Invalidate ack of a covering round may observe either mapping; invalidation uses Drain top-down (or Pause of an idle stack), the orders under which no response can refill a cache after its Invalidate")
-	s.Assume("while a finding is listed the generator avoids its input class by construction: TLB latency 1 -> 2 (" + sigTLBLat1 + "), no mmuCache (" + sigMCRspTo + "), no remote pages under a GMMU (" + sigGMMURemote + "); each steered case is counted in excluded_known")
+	s.Assume("requests in flight between a page-table Update and the last Invalidate ack of a covering round may observe either mapping; a round covers an Update only if it started at or after it and its filter matches the page; rounds go top-down, one command at a time, each acknowledged (Success) before the next")
+	s.Assume("while a finding is listed the generator avoids its input class by construction: TLB latency 1 -> 2 (" + sigTLBLat1 + "), no mmuCache (" + sigMCRspTo + "), no remote pages under a GMMU (" + sigGMMURemote + "), busy-Pause rounds become Drain rounds (" + sigPauseInval + "); each steered case is counted in excluded_known")
 	s.Assume("a run that is still active after 2M simulated cycles is reported as harness failure (inconclusive), not as a violation")
 
 	run := func(f kit.Failer, c c25Case) {
